@@ -28,6 +28,7 @@ import contextlib
 import errno
 import heapq
 import logging
+import math
 import os
 import time
 import typing
@@ -262,7 +263,13 @@ class ZMQEventLoop(EventLoop):
             if self._did_something and (not self._alarms or (self._alarms and timeout > 0)):
                 state = "idle"
                 timeout = 0
-            ready = dict(self._poller.poll(timeout * 1000))
+            if self._poller.sockets:
+                # Poller.poll() truncates a float timeout to whole milliseconds: round up, never wake early
+                ready = dict(self._poller.poll(math.ceil(timeout * 1000)))
+            else:
+                # Poller.poll() returns immediately when nothing is registered, whatever the timeout
+                time.sleep(timeout)
+                ready = {}
         else:
             ready = dict(self._poller.poll())
 
